@@ -9,6 +9,21 @@
 
 namespace PreprocessorNS {
 
+namespace {
+// Upper bound on the macro text substituted while preprocessing one file.
+// Macros that use each other multiply their size at every level
+// (`#define A B B`, `#define B C C`, ...), so a few lines of input can ask for
+// gigabytes of output; such input is rejected with a diagnostic instead.
+constexpr size_t kMaxMacroExpansion = 512 * 1024;
+
+// Characters of a word (identifier or number): ASCII letters, digits and '_'.
+// A macro name only matches a whole word; every other byte is a boundary.
+bool isWordChar(char c) {
+    return (c >= 'a' && c <= 'z') || (c >= 'A' && c <= 'Z') ||
+           (c >= '0' && c <= '9') || c == '_';
+}
+} // namespace
+
 Preprocessor::Preprocessor() : current_line_(0) { initBuiltinMacros(); }
 
 void Preprocessor::initBuiltinMacros() {
@@ -35,6 +50,7 @@ std::string Preprocessor::process(const std::string &source_code,
     errors_.clear();
     warnings_.clear();
     conditional_stack_.clear();
+    expansion_budget_ = kMaxMacroExpansion;
 
     std::istringstream input(source_code);
     std::ostringstream output;
@@ -306,96 +322,83 @@ bool Preprocessor::handleInclude(const std::string &content) {
     return true;
 }
 
+// The line is scanned once, from left to right. A word that names an
+// object-like macro is replaced by the body of the macro, which is scanned in
+// the same way, so macros used in the body are expanded as well. As in C, a
+// macro is not expanded again inside its own expansion: with `#define A A + 1`
+// the line `A` becomes `A + 1`. String literals are copied unchanged.
 std::string Preprocessor::expandMacros(const std::string &line) {
-    std::string result = line;
+    if (expansion_budget_ == 0) {
+        return line; // the limit was exceeded (reported once)
+    }
 
-    // 文字列リテラルの位置を記録
-    std::vector<std::pair<size_t, size_t>> string_ranges;
-    auto compute_string_ranges = [&]() {
-        string_ranges.clear();
-        bool in_string = false;
-        bool escaped = false;
-        size_t string_start = 0;
-
-        for (size_t i = 0; i < result.length(); i++) {
-            if (escaped) {
-                escaped = false;
-                continue;
-            }
-
-            if (result[i] == '\\') {
-                escaped = true;
-                continue;
-            }
-
-            if (result[i] == '"') {
-                if (!in_string) {
-                    in_string = true;
-                    string_start = i;
-                } else {
-                    in_string = false;
-                    string_ranges.push_back({string_start, i});
-                }
-            }
-        }
+    struct Frame {
+        const std::string *text;      // the line, or the body of `macro`
+        size_t pos;                   // next character of `text` to scan
+        const MacroDefinition *macro; // nullptr for the line itself
     };
-    compute_string_ranges();
+    std::vector<Frame> stack;
+    std::set<const MacroDefinition *> expanding;
+    std::string result;
 
-    // 文字列リテラル内かどうかをチェックする関数
-    auto is_in_string = [&](size_t pos) {
-        for (const auto &range : string_ranges) {
-            if (pos > range.first && pos < range.second) {
-                return true;
+    stack.push_back({&line, 0, nullptr});
+    while (!stack.empty()) {
+        Frame &frame = stack.back();
+        const std::string &text = *frame.text;
+        if (frame.pos >= text.length()) {
+            expanding.erase(frame.macro);
+            stack.pop_back();
+            continue;
+        }
+
+        const size_t start = frame.pos;
+        size_t end = start + 1;
+        const MacroDefinition *macro = nullptr;
+
+        if (text[start] == '\\') {
+            // エスケープされた引用符は文字列リテラルを開始しない
+            if (end < text.length() &&
+                (text[end] == '"' || text[end] == '\\')) {
+                end++;
+            }
+        } else if (text[start] == '"') {
+            // 文字列リテラル内はスキップ
+            size_t close = end;
+            while (close < text.length() && text[close] != '"') {
+                close += text[close] == '\\' ? 2 : 1;
+            }
+            if (close < text.length()) {
+                end = close + 1;
+            }
+        } else if (isWordChar(text[start])) {
+            // 識別子の一部でないかチェック（単語全体がマクロ名と一致する場合のみ）
+            while (end < text.length() && isWordChar(text[end])) {
+                end++;
+            }
+            auto it = defines_.find(text.substr(start, end - start));
+            if (it != defines_.end() &&
+                !it->second.is_function_like && // 関数マクロは後で実装
+                expanding.find(&it->second) == expanding.end()) {
+                macro = &it->second;
             }
         }
-        return false;
-    };
+        frame.pos = end;
 
-    // マクロを展開（複数回パス）
-    bool changed = true;
-    // 無限ループ防止（1パスで各マクロを1箇所ずつ置換するため、行の長さに比例させる）
-    int max_iterations = 100 + static_cast<int>(line.length());
-    int iterations = 0;
-
-    while (changed && iterations < max_iterations) {
-        changed = false;
-        iterations++;
-
-        for (const auto &[name, macro] : defines_) {
-            if (macro.is_function_like) {
-                continue; // 関数マクロは後で実装
-            }
-
-            // マクロ名を検索して置換
-            size_t pos = 0;
-            while ((pos = result.find(name, pos)) != std::string::npos) {
-                // 文字列リテラル内はスキップ
-                if (is_in_string(pos)) {
-                    pos += name.length();
-                    continue;
-                }
-
-                // 識別子の一部でないかチェック
-                bool is_start_valid =
-                    pos == 0 ||
-                    !(std::isalnum(result[pos - 1]) || result[pos - 1] == '_');
-                bool is_end_valid =
-                    pos + name.length() >= result.length() ||
-                    !(std::isalnum(result[pos + name.length()]) ||
-                      result[pos + name.length()] == '_');
-
-                if (is_start_valid && is_end_valid) {
-                    result.replace(pos, name.length(), macro.body);
-                    changed = true;
-                    pos += macro.body.length();
-                    // 文字列範囲を再計算（置換で位置がずれるため、次のマクロの前に）
-                    compute_string_ranges();
-                    break;
-                } else {
-                    pos += name.length();
-                }
-            }
+        if (!macro) {
+            result.append(text, start, end - start);
+            continue;
         }
+
+        if (macro->body.length() + 1 >= expansion_budget_) {
+            expansion_budget_ = 0;
+            addError("Macro expansion too large (more than " +
+                     std::to_string(kMaxMacroExpansion) +
+                     " bytes of macro text in one file)");
+            return line;
+        }
+        expansion_budget_ -= macro->body.length() + 1;
+        expanding.insert(macro);
+        stack.push_back({&macro->body, 0, macro}); // invalidates `frame`
     }
 
     return result;
